@@ -96,22 +96,22 @@ type HCallObs struct {
 }
 
 type HistObs struct {
-	Parsed    []HState   `json:"parsed"` // schema after Schema.Parse
-	Topology  []int      `json:"topology"`
-	ParseErr  string     `json:"parse_err,omitempty"`
-	Calls     []HCallObs `json:"calls"`
-	Txs       []HTx      `json:"txs"`
-	Events    []string   `json:"events"` // q q:auto q:check init start finals end qend
-	HLog      []HLog     `json:"hlog"`
-	Crashed   bool       `json:"crashed"`
-	Hung      bool       `json:"hung"`
-	InternalErrs int     `json:"internal_errs"`
-	CrashMsg  string     `json:"crash_msg,omitempty"`
-	Extra     [][]string `json:"extra_tracers,omitempty"`
-	FinalTime []uint64   `json:"final_time"`
-	Err       string     `json:"err,omitempty"`
-	Oracle    [][]int    `json:"oracle"` // called lists of the auto mutations, as queued
-	Rerun     int        `json:"rerun"` // see EvalHist.h_rerun
+	Parsed       []HState   `json:"parsed"` // schema after Schema.Parse
+	Topology     []int      `json:"topology"`
+	ParseErr     string     `json:"parse_err,omitempty"`
+	Calls        []HCallObs `json:"calls"`
+	Txs          []HTx      `json:"txs"`
+	Events       []string   `json:"events"` // q q:auto q:check init start finals end qend
+	HLog         []HLog     `json:"hlog"`
+	Crashed      bool       `json:"crashed"`
+	Hung         bool       `json:"hung"`
+	InternalErrs int        `json:"internal_errs"`
+	CrashMsg     string     `json:"crash_msg,omitempty"`
+	Extra        [][]string `json:"extra_tracers,omitempty"`
+	FinalTime    []uint64   `json:"final_time"`
+	Err          string     `json:"err,omitempty"`
+	Oracle       [][]int    `json:"oracle"` // called lists of the auto mutations, as queued
+	Rerun        int        `json:"rerun"`  // see EvalHist.h_rerun
 }
 
 // ------------------------------------------------------------ tracer
